@@ -230,7 +230,7 @@ pub struct Site {
     pub ordinal: u32,
 }
 
-pub const BUDGET: u64 = 60_000;
+pub const BUDGET: u64 = 120_000;
 
 pub fn initial_store(h: &History) -> FsStore {
     let mut fs = FsStore::default();
